@@ -123,6 +123,25 @@ pub fn plan_c09(thorough: bool) -> Plan {
             }
         }
     }
+    // pruning, then a reopen, then rolling back everything that is still retained (and one less):
+    // the start of the live range read back from the manifest lags the pruned start by one record
+    for ll in [1u32, 2, 3] {
+        for seg in [4096u64, 8192, 0] {
+            let cfg = rb_cfg(ll, seg);
+            for extra in [1usize, 2] {
+                for empty in [false, true] {
+                    for back in [ll as u64, (ll as u64).saturating_sub(1).max(1)] {
+                        let mut ops: Vec<Value> = (0..ll as usize + extra).map(|i| if empty { c(vec![]) } else { c(vec![w((i % 4) as u64, 1 + i as u64)]) }).collect();
+                        ops.push(json!({"reopen": {}}));
+                        ops.push(json!({"rb": back}));
+                        ops.push(c(vec![w(3, 9)]));
+                        ops.push(json!({"rb": 1}));
+                        cases.push(case("empty", vec!["U4"], &cfg, "noproof", ops, 4, true));
+                    }
+                }
+            }
+        }
+    }
     // large prior values on a cold store: blind overwrites / deletes of values with 16 and 18
     // overflow pages (more than the 15 page numbers an overflow cell holds) right after a reopen
     // that reads nothing back, so the reverse-delta worker has to fetch the prior value through
